@@ -29,6 +29,14 @@ try:
 except OSError:
     envb = b"\0".join(os.fsencode(k) + b"=" + os.fsencode(v) for k, v in os.environ.items())
 st = {"argv": [os.fsencode(a).hex() for a in sys.argv[1:]], "env": envb.hex(), "methods": []}
+try:
+    mode = json.load(open(os.path.join(d, "mode.json")))
+except Exception:
+    mode = {}
+LISTS = {"tools/list": {"tools": [{"name": "t%%d" %% i, "description": "tool %%d" %% i if i %% 2 else None,
+                                   "inputSchema": {"type": "object"}} for i in range(5)]},
+         "resources/list": {"resources": [{"uri": "file:///r%%d" %% i, "name": "r%%d" %% i} for i in range(4)]},
+         "prompts/list": {"prompts": [{"name": "p%%d" %% i, "description": "prompt"} for i in range(4)]}}
 def save():
     with open(rec + ".tmp", "w") as f:
         json.dump(st, f)
@@ -49,8 +57,13 @@ for line in iter(sys.stdin.buffer.readline, b""):
         continue
     if meth == "initialize":
         pv = (m.get("params") or {}).get("protocolVersion", "2025-06-18")
-        resp = {"jsonrpc": "2.0", "id": m["id"], "result": {
-            "protocolVersion": pv, "capabilities": {}, "serverInfo": {"name": "witness", "version": "1"}}}
+        res = {"protocolVersion": pv, "capabilities": {c: {} for c in mode.get("caps", [])},
+               "serverInfo": {"name": "witness", "version": "1"}}
+        if "instructions" in mode:
+            res["instructions"] = mode["instructions"]
+        resp = {"jsonrpc": "2.0", "id": m["id"], "result": res}
+    elif meth in LISTS and mode.get("lists") == "ok":
+        resp = {"jsonrpc": "2.0", "id": m["id"], "result": LISTS[meth]}
     elif meth == "ping":
         resp = {"jsonrpc": "2.0", "id": m["id"], "result": {}}
     else:
@@ -60,6 +73,9 @@ for line in iter(sys.stdin.buffer.readline, b""):
 '''
 
 ENTRY_TIMEOUT_S = 45.0
+# `load_config` opens the file with the locale's encoding; raw UTF-8 files are only written where that is UTF-8
+import locale as _locale
+UTF8_FILES = _locale.getpreferredencoding(False).lower().replace("-", "") in ("utf8",)
 
 
 @contextlib.contextmanager
@@ -176,6 +192,7 @@ def _run_entry(case, cfg_path, obs):
 
     names = case["names"]
     entry = case["entry"]
+    verbose = bool(case.get("verbose"))
     buf = io.StringIO()
     with contextlib.redirect_stdout(buf):
         if entry == "loader":
@@ -186,10 +203,12 @@ def _run_entry(case, cfg_path, obs):
                     params, timeout = await load_config(cfg_path, names[0])
                     obs["ret"] = {"command": params.command, "args": list(params.args),
                                   "env": None if params.env is None else dict(params.env), "timeout": timeout}
-                    async with stdio_client(params) as (r, w):
-                        res = await send_initialize(r, w, timeout=10.0 if timeout is None else max(timeout, 10.0))
-                        obs["handshake"] = bool(res)
-                        obs["ping"] = bool(await send_ping(r, w, timeout=10.0))
+                    # repeat: the SAME parameters object serves a second connection
+                    for _ in range(case.get("repeat", 1)):
+                        async with stdio_client(params) as (r, w):
+                            res = await send_initialize(r, w, timeout=10.0 if timeout is None else max(timeout, 10.0))
+                            obs["handshake"] = bool(res)
+                            obs["ping"] = bool(await send_ping(r, w, timeout=10.0))
 
             anyio.run(main)
         elif entry == "cliTest":
@@ -197,20 +216,80 @@ def _run_entry(case, cfg_path, obs):
 
             async def main():
                 with anyio.fail_after(ENTRY_TIMEOUT_S):
-                    return await M.test_server(cfg_path, names[0], False)
+                    out = None
+                    for _ in range(case.get("repeat", 1)):
+                        out = await M.test_server(cfg_path, names[0], verbose)
+                    return out
 
             obs["ret"] = bool(anyio.run(main))
+        elif entry == "cliMain":
+            # the command line itself: argument parsing, default configuration discovery, exit status
+            import chuk_mcp.__main__ as M
+
+            mode = case.get("main_mode", "explicit")
+            argv = ["chuk_mcp"]
+            if mode != "discover":
+                argv += ["--config", cfg_path] if mode != "short" else ["-c", cfg_path]
+            if not (mode == "default-server" and names[0] == "sqlite"):
+                argv += ["--server", names[0]] if mode != "short" else ["-s", names[0]]
+            if verbose:
+                argv.append("--verbose")
+            old_argv, old_cwd = sys.argv, os.getcwd()
+            import logging
+            root = logging.getLogger()
+            handlers, level = list(root.handlers), root.level
+            try:
+                sys.argv = argv
+                if mode == "discover":
+                    os.chdir(os.path.dirname(cfg_path))
+                for _ in range(case.get("repeat", 1)):
+                    try:
+                        M.main()
+                        obs["ret"] = None
+                    except SystemExit as ex:
+                        obs["ret"] = ex.code in (0, None)
+            finally:
+                sys.argv = old_argv
+                os.chdir(old_cwd)
+                for h in list(root.handlers):
+                    if h not in handlers:
+                        root.removeHandler(h)
+                root.setLevel(level)
         elif entry == "runner":
             from chuk_mcp.mcp_client.host import server_manager as SM
 
-            got = {"n": None, "pings": []}
+            got = {"n": None, "pings": [], "info": None}
 
-            async def command(server_streams):
+            async def work(server_streams, server_info=None):
                 got["n"] = len(server_streams)
+                if server_info is not None:
+                    got["info"] = [[i.get("name"), bool(i.get("user_specified"))] for i in server_info]
                 for r, w in server_streams:
                     got["pings"].append(bool(await send_ping(r, w, timeout=10.0)))
 
-            SM.run_command(command, cfg_path, list(names))
+            style = case.get("cmdfunc", "plain")
+            if style == "interactive_mode":
+                async def interactive_mode(server_streams, server_info=None):
+                    await work(server_streams, server_info)
+                    return True                      # "clean exit"
+                command = interactive_mode
+            elif style == "chat_run":
+                async def chat_run(server_streams):   # does not take server_info: the runner falls back
+                    await work(server_streams)
+                command = chat_run
+            elif style == "raises":
+                async def command(server_streams):
+                    await work(server_streams)
+                    raise RuntimeError("command failed: %s {0} cancel scope")
+            else:
+                async def command(server_streams):
+                    await work(server_streams)
+
+            for _ in range(case.get("repeat", 1)):
+                if "user_specified" in case:
+                    SM.run_command(command, cfg_path, list(names), case["user_specified"])
+                else:
+                    SM.run_command(command, cfg_path, list(names))
             obs["ret"] = got
         else:
             raise ValueError(entry)
@@ -224,6 +303,7 @@ def run_case(case):
     tmp = tempfile.mkdtemp(prefix="verif-c20-")
     wdirs = {}
     host_path = os.environ.get("PATH")
+    saved_env = {}
     try:
         doc = case.get("doc")
         paths = {}
@@ -238,21 +318,46 @@ def run_case(case):
                 with open(p, "w") as f:
                     f.write(WITNESS % {"py": sys.executable})
                 os.chmod(p, 0o755)
+                if case.get("witness_mode"):
+                    with open(os.path.join(d, "mode.json"), "w") as f:
+                        json.dump(case["witness_mode"], f)
                 wdirs[i] = d
                 paths[i] = p
         if bare.get("host"):
             os.environ["PATH"] = ":".join([wdirs[i] for i in bare["host"]] + ([host_path] if host_path else []))
+        for k, v in (case.get("host_env") or {}).items():
+            saved_env[k] = os.environ.get(k)
+            if v is None:
+                os.environ.pop(k, None)
+            else:
+                os.environ[k] = v
         obs["default_env"] = dict(get_default_environment())
-        cfg_path = os.path.join(tmp, "config.json")
+        cfg_dir = os.path.join(tmp, case.get("cfgdir", "conf"))
+        os.makedirs(cfg_dir, exist_ok=True)
+        cfg_path = os.path.join(cfg_dir, case.get("cfgname", "config.json"))
         kind = case["file"]
         if kind == "ok":
-            with open(cfg_path, "w") as f:
-                json.dump(materialise(doc, paths, wdirs), f, ensure_ascii=True)
+            style = case.get("style", "ascii")
+            real = materialise(doc, paths, wdirs)
+            if style == "pretty-utf8" and UTF8_FILES:
+                text = json.dumps(real, ensure_ascii=False, indent=2) + "\n"
+            elif style == "crlf":
+                text = json.dumps(real, ensure_ascii=True, indent=1).replace("\n", "\r\n") + "\r\n\r\n"
+            elif style == "compact":
+                text = json.dumps(real, ensure_ascii=True, separators=(",", ":"))
+            elif style == "spaced":
+                text = "\n\t  " + json.dumps(real, ensure_ascii=True, indent=8, sort_keys=True) + "   \n\n"
+            else:
+                text = json.dumps(real, ensure_ascii=True)
+            with open(cfg_path, "w", encoding="utf-8", newline="") as f:
+                f.write(text)
         elif kind == "invalid":
             with open(cfg_path, "w", encoding="utf-8") as f:
                 f.write(case["text"])
         elif kind == "missing":
             cfg_path = os.path.join(tmp, case.get("path", "absent.json"))
+            if case.get("main_mode") == "discover":
+                case = dict(case, main_mode="explicit")   # nothing to discover: name the missing file
         else:
             raise ValueError(kind)
 
@@ -285,6 +390,11 @@ def run_case(case):
                 if obs["ret"]["command"] == p:
                     obs["ret"]["command"] = f"@W{i}"
     finally:
+        for k, v in saved_env.items():
+            if v is None:
+                os.environ.pop(k, None)
+            else:
+                os.environ[k] = v
         if host_path is not None:
             os.environ["PATH"] = host_path
         kill_strays(wdirs)
